@@ -13,7 +13,7 @@ CODE = ["sx/symsql.py (model of sqlite3, validated against the real library by b
 BOUNDS = {"quick": "per table: every sequence of <=2 operations over {store A, store B (replace), delete, ...} on 2 keys, crash at every statement/commit boundary of the last operation, reopen; "
                    "symbolic: <=2 operations with unconstrained ids (0..2^40), group ids (strings <=6), record blobs (1..64 bytes), 32-byte identity keys, registration id; crash before boundary 0..3 or none",
           "thorough": "sequences of <=4 operations (symbolic: <=3)"}
-OUTSIDE = ["sqlite's own journal atomicity (trusted: a transaction that was not committed is rolled back when the file is reopened)", "power-loss below the OS (fsync ordering)",
+OUTSIDE = ["sqlite's own journal atomicity (trusted: a transaction that was not committed is rolled back when the file is reopened -- under the premise, checked on every path, that the connection keeps its rollback journal / WAL on disk)", "power-loss below the OS (fsync ordering)",
            "record contents: blobs are opaque tokens in the crash harness (sqlite only stores and compares them); real python-axolotl records are used in the durability harness"]
 ASSUMPTIONS = ["a process death = the connection is abandoned at a statement/commit boundary without commit; either at once (killed) or after the stack has unwound once (interrupted: finally blocks of the store code run)",
                "symbolic cases: sqlite3 behaves like sx/symsql.py on the statements issued (differentially tested each run; every model replayed on real sqlite3); python-axolotl record classes are transparent wrappers of their bytes"]
@@ -118,6 +118,26 @@ def open_store(path, b):
     finally:
         m.sqlite3 = sqlite3
     return st, fake
+
+
+DURABLE_JOURNALS = ("delete", "truncate", "persist", "wal")
+
+
+def journal_modes(conns):
+    """journal mode of each connection (real sqlite3 or the symbolic engine), asked the way an application would"""
+    out = []
+    for c in conns:
+        r = c.execute("PRAGMA journal_mode").fetchone()[0]
+        out.append(r.decode() if isinstance(r, bytes) else str(r))
+    return out
+
+
+def journal_obs(modes):
+    # the all-or-nothing argument trusts sqlite to roll an unfinished transaction back when the file is reopened; sqlite documents that
+    # only for a rollback journal / WAL kept on disk (journal_mode MEMORY or OFF: "the database file will very likely go corrupt" if the
+    # process dies mid-transaction) -- the premise is checked on every path instead of assumed
+    return [("every connection keeps its rollback journal on disk, so a death inside a transaction is rolled back on reopen (journal modes %s)" % modes,
+             all(m.lower() in DURABLE_JOURNALS for m in modes))]
 
 
 def abandon(fake):
@@ -248,11 +268,12 @@ def h_crash(ctx, table, n_ops):
             crashed = True
         b.armed = False
         ctx.note("boundaries %s" % b.log)
+        jobs = journal_obs(journal_modes(fake.conns))
         abandon(fake)
         # reopen with a fresh store (process restart)
         store2, fake2 = open_store(path, Boundary())
         got = read_table(path, table)
-        obs = []
+        obs = jobs
         if not crashed:
             obs.append(("no-crash: contents after reopen == model (%s)" % seq[-1], got == post))
         else:
@@ -562,6 +583,7 @@ def h_sym(ctx, table, n_ops):
         except (Crash, Interrupted):
             crashed = True
         b.armed = False
+        jobs = journal_obs(journal_modes(env.fake.conns if env.tmp else env.conns))
         env.die()
         store2 = env.open()                                     # restart
         rows = env.durable(table)
@@ -577,7 +599,7 @@ def h_sym(ctx, table, n_ops):
                 elif _keq(r["prekey_id"], kk):
                     return (r["record"], r["sent_to_server"]) if table == "prekeys" else r["record"]
             return ABSENT
-        obs = []
+        obs = jobs
         keys = []
         for kk in pre.keys() + post.keys():
             if not any(_keq(kk, x) for x in keys):
